@@ -94,6 +94,10 @@ def run_case(job):
         inp = job["inp"]
         data = E.gen_input(inp["kind"], inp["n"], rng, inp.get("period"))
         plan = job["plan"]
+        pd = E.preset_dict_bytes(plan)
+        if pd:
+            dsz = int(plan["dict"]) if plan.get("dict", "dflt") != "dflt" else (1 << 20)
+            data = E.splice_preset(data, pd, dsz, rng)
         R = E.encode(plan, data, bias=0, seed=job["seed"])
         res["encs"] += 1
         res["enclen"] = len(R.out); res["consumed"] = R.consumed; res["kind"] = R.kind
@@ -101,7 +105,8 @@ def run_case(job):
         ex = E.lz_executions(R, libret, libout, mode=job.get("mode"))
         biases = []
         if "bias" in job["want"]:
-            for b in bias_values(len(data), R.info["dict_size"], rng, job.get("quick", True), inp.get("heavy", False)):
+            for b in bias_values(len(data), R.info["dict_size"], rng, job.get("quick", True),
+                                 inp.get("heavy", False) or len(pd) > 100000):
                 R2 = E.encode(plan, data, bias=b, seed=job["seed"])
                 res["encs"] += 1
                 ev = {"e": "Bias", "n": b, "dig": E.dig(R2.out), "len": len(R2.out)}
@@ -133,11 +138,115 @@ def run_case(job):
     res["wall"] = time.time() - t0
     return res
 
-def run_all(jobs, procs=4):
-    """Run jobs in worker processes (fork), return results in job order."""
-    import multiprocessing as mp
+def _worker(jobs, conn, errpath):
+    """Child: run its share of the jobs in order, send (position, result) after each."""
+    try:
+        fd = os.open(errpath, os.O_WRONLY | os.O_CREAT | os.O_TRUNC, 0o600)
+        os.dup2(fd, 2)
+    except OSError:
+        pass
+    for pos, job in jobs:
+        conn.send(("start", pos))
+        conn.send(("done", pos, run_case(job)))
+    conn.send(("end",))
+    conn.close()
+    os._exit(0)
+
+def _crash_result(job, how, stderr_tail):
+    """A worker died while running `job`: the encoder (or liblzma's decoder) crashed / aborted / hung."""
+    import re
+    what = how
+    m = re.search(r"ERROR: AddressSanitizer: ([\w-]+)", stderr_tail)
+    if m:
+        what = m.group(1)
+        f = re.search(r"#\d+ 0x[0-9a-f]+ in (\w+)", stderr_tail)
+        if f:
+            what += ":" + f.group(1)
+    else:
+        m = re.search(r"runtime error: ([^\n]{0,60})", stderr_tail)
+        if m:
+            what = "ubsan:" + re.sub(r"[^a-z ]", "", m.group(1).lower()).strip().replace(" ", "_")[:40]
+        else:
+            m = re.search(r"Assertion `([^']{0,80})' failed", stderr_tail)
+            if m:
+                what = "assert:" + re.sub(r"\s+", "", m.group(1))[:60]
+    return dict(idx=job["idx"], plan=job["plan"], inp=job["inp"], lz=[], file=None, nbias=0, wall=0.0, encs=0,
+                errors=[("crash:%s:%s" % (job["plan"]["entry"], what),
+                         "the library crashed / aborted / hung (%s) while encoding or decoding: plan=%r input=%r\n%s" % (
+                             how, job["plan"], job["inp"], stderr_tail[-2500:]))])
+
+def run_all(jobs, procs=4, job_timeout=300, workdir="/var/tmp"):
+    """Run jobs in forked worker processes; returns results in job order.  A worker that dies (sanitizer report,
+    assertion, signal) or makes no progress for job_timeout seconds is charged to the job it was running (reported as
+    a crash result) and replaced, so one crashing configuration cannot hide the others or hang the check."""
+    import multiprocessing as mp, select
     if procs <= 1:
         return [run_case(j) for j in jobs]
     ctxm = mp.get_context("fork")
-    with ctxm.Pool(procs) as pool:
-        return pool.map(run_case, jobs, chunksize=4)
+    results = [None] * len(jobs)
+    shares = [[(k, jobs[k]) for k in range(w, len(jobs), procs)] for w in range(procs)]
+    workers = {}
+    def spawn(w, share):
+        if not share:
+            return
+        pr, pc = ctxm.Pipe(duplex=False)
+        errpath = os.path.join(workdir, "encworker.%d.%d.err" % (os.getpid(), w))
+        p = ctxm.Process(target=_worker, args=(share, pc, errpath))
+        p.start()
+        pc.close()
+        workers[w] = dict(proc=p, conn=pr, share=share, cur=None, t=time.time(), err=errpath)
+    for w in range(procs):
+        spawn(w, shares[w])
+    while workers:
+        conns = {st["conn"]: w for w, st in workers.items()}
+        ready = mp.connection.wait(list(conns), timeout=2.0)
+        for c in ready:
+            w = conns[c]
+            st = workers[w]
+            try:
+                msg = c.recv()
+            except (EOFError, OSError):
+                msg = ("dead",)
+            if msg[0] == "start":
+                st["cur"] = msg[1]; st["t"] = time.time()
+            elif msg[0] == "done":
+                results[msg[1]] = msg[2]; st["cur"] = None; st["t"] = time.time()
+            elif msg[0] == "end":
+                st["proc"].join(5); c.close(); workers.pop(w)
+                try:
+                    os.unlink(st["err"])
+                except OSError:
+                    pass
+            else:
+                st["proc"].join(5)
+                _replace(workers, w, results, jobs, spawn, "exit %s" % st["proc"].exitcode)
+        now = time.time()
+        for w, st in list(workers.items()):
+            if st["cur"] is not None and now - st["t"] > job_timeout:
+                st["proc"].kill(); st["proc"].join(5)
+                _replace(workers, w, results, jobs, spawn, "no progress for %ds" % job_timeout)
+    for k, r in enumerate(results):
+        if r is None:
+            results[k] = _crash_result(jobs[k], "worker lost", "")
+    return results
+
+def _replace(workers, w, results, jobs, spawn, how):
+    st = workers.pop(w)
+    try:
+        st["conn"].close()
+    except OSError:
+        pass
+    tail = ""
+    try:
+        with open(st["err"], "r", errors="replace") as f:
+            tail = f.read()[-6000:]
+    except OSError:
+        pass
+    cur = st["cur"]
+    rest = [(k, j) for k, j in st["share"] if results[k] is None]
+    if cur is None and rest:
+        cur = rest[0][0]            # died between two jobs: charge the next one
+    if cur is not None:
+        results[cur] = _crash_result(jobs[cur], how, tail)
+    rest = [(k, j) for k, j in rest if k != cur]
+    spawn(w, rest)
